@@ -4,7 +4,7 @@ import os
 
 from common import Check, log, tool_error
 from l1 import apply_l1
-from common import ensure_oracle, run_harness
+from common import CACHE, ensure_oracle, run_harness
 from l3 import l3_run
 from mc import replay, run_mc, spec_violation
 
@@ -136,6 +136,7 @@ def C06(chk):
     ops = ["prepare", "enforce"]
     profiles_mc(chk, "nick-spaces", ["a", "A", "SP", "NBSP", "ISP", "diaer", "EMSP", "OGH"], n + 1, ["NICK"], ops, insts)
     profiles_mc(chk, "nick-compat", ["a", "rom4", "hcj", "eac", "han", "emo", "FWA", "SP", "diaer"], n, ["NICK"], ops, insts)
+    profiles_mc(chk, "nick-nfkc", ["e", "acute", "Eac", "cedil", "SP", "rom4", "angst", "hy"], n, ["NICK"], ops, insts)
     l3_run(chk, "nickname", strings=500 if q else 6000, per_string=3, kinds=["enforce", "enforce", "prepare"], profiles=["NICK"], max_len=10)
     chk.cov["exhaustive"] = True
     chk.cov["rule"] = ("every string of length <= %d over a space alphabet (incl. U+00A8 whose NFKC introduces a leading space, so that "
@@ -260,7 +261,7 @@ def C02(chk):
     n = 4 if q else 5
     generic_mc(chk, "MC_Context", "all-properties", ["a", "SP", "TAB", "unas", "ZWJ", "vir", "mdot", "l", "jamo", "rom4", "emo", "han"],
                {"MaxLen": n - 1 if q else n - 1, "Rules": tla_set(["zwj"])}, CTX_INVS, insts)
-    generic_mc(chk, "MC_Context", "contextual", ["ZWNJ", "ZWJ", "vir", "arab", "mdot", "l", "aid", "eaid", "TAB"],
+    generic_mc(chk, "MC_Context", "contextual", ["ZWNJ", "ZWJ", "vir", "fatha", "arab", "mdot", "l", "aid", "eaid", "TAB"],
                {"MaxLen": n, "Rules": "{}"}, CTX_INVS, insts)
     apply_l1(chk, ["reg"], nontrivial_key="ctx")
     l3_run(chk, "allows", strings=600 if q else 8000, per_string=2, kinds=["allows"])
@@ -421,4 +422,101 @@ def C01(chk):
                        "replay and trace; model: slices on character boundaries (MappingsAgree) for strings <= %d" % ("4" if q else "6", "20k" if q else "300k", n))
 
 
-PROPS = {"C01": C01, "C08": C08, "C02": C02, "C03": C03, "C07": C07, "C09": C09, "C04": C04, "C05": C05, "C06": C06, "C10": C10, "C11": C11, "C12": C12, "C13": C13, "C14": C14, "C18": C18}
+def plain_mc(chk, module, name, cfg, workers=4, timeout=2400, env=None):
+    mc = run_mc(module, cfg, name, workers=workers, timeout=timeout, heap="8g")
+    if mc.res.violated:
+        spec_violation(chk, mc, name)
+        return None
+    return mc
+
+
+def C15(chk):
+    q = chk.tier == "quick"
+    m = 6 if q else 7
+    cfg = ("SPECIFICATION Spec\nCONSTANTS\n  M = %d\n  NV = 3\nINVARIANT NoSpuriousError\nINVARIANT SetTablesFaithful\n"
+           "INVARIANT UnassignedFaithful\nINVARIANT UnassignedExact\nINVARIANT BidiFaithful\nINVARIANT WidthFaithful\nINVARIANT Emit\nCHECK_DEADLOCK FALSE\n" % m)
+    mc = plain_mc(chk, "MC_TableGen", "c15-m%d" % m, cfg, workers=6, timeout=3000)
+    if mc:
+        scratch = os.path.join(CACHE, "pvh-gen-%d" % os.getpid())
+        os.environ["PVH_SCRATCH"] = scratch
+        try:
+            replay(chk, mc, "MC_TableGen(M=%d, 3 attribute values) x 4 bases" % m)
+        finally:
+            import shutil
+            shutil.rmtree(scratch, ignore_errors=True)
+    # the pinned data sets through the real generators are covered by L1 (every code point of every generated table)
+    apply_l1(chk, ["id", "ff", "vir", "greek", "hebrew", "kana", "ld", "rd", "wm", "osp", "bidi"], nontrivial_key="runs")
+    chk.cov["exhaustive"] = True
+    chk.cov["rule"] = ("every well-formed UnicodeData-like input over a universe of %d code points and 3 attribute values (any subset of "
+                       "assigned code points, any placement of First/Last ranges next to single entries, any run structure), built line by "
+                       "line; the generator machines (First/Last folding, set + run merge, unassigned gaps with the range register, bidi run "
+                       "compression, width mapping) step per line and TLC checks at every complete input that each table denotes exactly "
+                       "what the input assigns, is searchable by binary search and single-valued; every input is rendered as a real "
+                       "UnicodeData.txt at 4 bases (0, 0x640, 0xFFFA across the BMP boundary, 0x10FF00), run through the real precis_tools "
+                       "generators, the emitted Rust source parsed into Codepoints entries and searched with the library's own expression; "
+                       "the pinned 6.3.0 / 16.0.0 files: L1 compares every code point of every table with the oracle; non-trivial = inputs with a First/Last range" % m)
+    chk.assumptions += ["well-formed = sorted, First/Last paired with equal attributes, no code point listed twice; U+10FFFF itself is never listed",
+                        "the unassigned table omits the gap after the last listed code point (named deviation; invisible on any real UnicodeData, which lists U+10FFFD)"]
+
+
+def C17(chk):
+    q = chk.tier == "quick"
+    rows = 2 if q else 3
+    cfg = ("SPECIFICATION Spec\nCONSTANTS\n  MaxRows = %d\nINVARIANT OneItemPerDataLine\nINVARIANT LineNumbers\n"
+           "INVARIANT RoundTrip\nINVARIANT CorruptionsRejected\nINVARIANT Emit\nCHECK_DEADLOCK FALSE\n" % rows)
+    mc = plain_mc(chk, "MC_Csv", "c17", cfg)
+    scratch = os.path.join(CACHE, "pvh-csv-%d" % os.getpid())
+    os.environ["PVH_SCRATCH"] = scratch
+    try:
+        if mc:
+            replay(chk, mc, "MC_Csv(header + <= %d rows)" % rows)
+        pass
+    finally:
+        import shutil
+        shutil.rmtree(scratch, ignore_errors=True)
+    from l3 import csv_trace_run
+    csv_trace_run(chk, rows=20000 if q else 300000)
+    chk.cov["exhaustive"] = True
+    chk.cov["rule"] = ("model: every file of a header (3 shapes, skipped whatever it contains) and <= %d rows from a catalogue of 4x4x5 "
+                       "well-formed row shapes (single / range / U+10FFFF, single property / ordered pair, descriptions with 0-2 commas "
+                       "and with ' or ') and 23 corruptions (deleted / emptied field, unknown or dangling property, extra ' or X', blank "
+                       "around a name, non-hex / too large / half-open / triple code point field, empty line), LF and CRLF and no final "
+                       "terminator; TLC checks round trip, rejection, one item per data line in file order, errors numbered by physical "
+                       "line; every file written out and read through CsvLineParser::from_path and every row through "
+                       "PrecisDerivedProperty::from_str; plus %s random rows over all code points / ranges, all 7 names and 49 ordered "
+                       "pairs, random descriptions, and their corruptions; plus the shipped registry file re-read against our own parse" % (rows, "20k" if q else "300k"))
+    chk.assumptions += ["malformed code points are limited to unambiguous ones (non-hex character, empty, > 10FFFF, missing range side); sign prefixes and lower-case hex are not asserted either way"]
+
+
+def C16(chk):
+    q = chk.tier == "quick"
+    # (1) design: the session machine
+    for name, threads, calls in (("3x1", "{t1, t2, t3}", 1), ("2x2", "{t1, t2}", 2)) + (() if q else (("3x2", "{t1, t2, t3}", 2),)):
+        cfg = ('SPECIFICATION Spec\nCONSTANTS\n  Threads = %s\n  ProfilesC = {"UCM", "NICK"}\n  Inputs = {"x", "y"}\n'
+               '  Forms = {"static", "inst", "long"}\n  MaxCalls = %d\n  SemOf <- MCSem\n'
+               "INVARIANT ResultsDependOnlyOnArguments\nINVARIANT SameCallSameResult\nINVARIANT OneInitializer\nINVARIANT InitializerOwnsCell\n"
+               "INVARIANT StaticOnlyWhenReady\nPROPERTY ReadyIsStable\nPROPERTY EveryCallReturns\nVIEW View\nCHECK_DEADLOCK FALSE\n" % (threads, calls))
+        mc = plain_mc(chk, "MC_Precis", "c16-" + name, cfg, workers=4, timeout=3000)
+        if mc:
+            chk.add_tlc("MC:MC_Precis " + name, mc.res)
+            os.remove(mc.replay_path)
+    # (2) API forms x argument kinds on every string of model alphabets (special-casing sensitive characters included)
+    n = 3 if q else 4
+    insts = (0,) if q else (0, 1, 2)
+    allp = ["UCM", "UCP", "OPQ", "NICK"]
+    profiles_mc(chk, "forms-case", ["a", "A", "Sig", "GRK", "grk", "FWA", "SP", "dotI"], n, allp, ["prepare", "enforce"], insts, invariants=["Agree"], forms=True)
+    profiles_mc(chk, "forms-nfc", ["e", "acute", "Eac", "NBSP", "rom4", "heb", "d1", "aid"], n, allp, ["prepare", "enforce"], insts, invariants=["Agree"], forms=True)
+    # (3) multi-threaded sessions in fresh processes, racing on the first use of the statics
+    from l3 import session_run
+    session_run(chk, processes=6 if q else 60, threads=8, calls=40 if q else 60)
+    # (4) single-threaded histories: several different calls on the same string in a row
+    l3_run(chk, "histories", strings=400 if q else 5000, per_string=6, max_len=6)
+    chk.cov["rule"] = ("design: the session machine (threads x Once cells of the lazy statics x API forms), every interleaving of 3 threads x 1 "
+                       "call and 2 threads x 2 calls (thorough: 3 x 2), safety + every call returns; code: every string <= %d over two alphabets "
+                       "(incl. final-sigma and dotted-I contexts) through static / long-lived / fresh instance x &str / String / Cow::Borrowed / "
+                       "Cow::Owned, all must equal the reference call; %d fresh processes x 8 threads released by a barrier whose first call "
+                       "races on the same static profile, results judged by TLC against Sem and required equal for equal calls across "
+                       "threads, forms, argument kinds, processes and histories (memo in Trace_Api.tla)" % (n, 6 if q else 60))
+
+
+PROPS = {"C15": C15, "C16": C16, "C17": C17, "C01": C01, "C08": C08, "C02": C02, "C03": C03, "C07": C07, "C09": C09, "C04": C04, "C05": C05, "C06": C06, "C10": C10, "C11": C11, "C12": C12, "C13": C13, "C14": C14, "C18": C18}
